@@ -200,47 +200,54 @@ def run(rep):
     for fn_ in ('lookup', 'lookup1', 'adapter_hook', 'lookupAll', 'subscriptions'):
         _sem.fetch_order_spec(rep, 'B3', _fd(_amod, 'LookupBase.' + fn_), 'LookupBase.' + fn_)
     mod = repo.module('adapter.py')
+    from ..sympath import summaries as _S, normal as _N
     for meth, unc in (('lookup', '_uncached_lookup'),
                       ('lookupAll', '_uncached_lookupAll'),
                       ('subscriptions', '_uncached_subscriptions')):
         f = find_def(mod, 'LookupBase.' + meth)
-        cfg = cfg_of(f)
-        unodes = [n for n in cfg.nodes if n.ast is not None and
-                  header_expr(n) is not None and
-                  find_all(header_expr(n), 'self.%s($$a)' % unc)]
-        stores = [n for n in cfg.nodes if isinstance(n.ast, ast.Assign)
-                  and isinstance(n.ast.targets[0], ast.Subscript)
-                  and n.ast.value is not None and isinstance(n.ast.value, ast.Name)
-                  and n.ast.value.id == 'result']
-        ok = bool(unodes) and bool(stores)
-        detail = 'uncached call / result store not found'
-        if ok:
-            good = True
-            for s in stores:
-                tgt = s.ast.targets[0].value
-                if not isinstance(tgt, ast.Name):
-                    good = False
-                    detail = ('result is stored through `%s`, re-read after the '
-                              'uncached call (may be a fresh, or the cleared, '
-                              'dictionary)' % norm_src(tgt))
-                    continue
-                defs = reaching_defs(cfg, s, tgt.id)
-                # every reaching definition of the container precedes the call
-                for d in defs:
-                    if d is cfg.entry or any(d.id in cfg.reach(un) for un in unodes):
-                        good = False
-                        detail = ('container `%s` is (re)bound after the uncached '
-                                  'call' % tgt.id)
-            ok = good
-            if ok:
-                detail = ('the dictionary written after self.%s() is the local '
-                          'fetched before the call (a detached dict is written, '
-                          'never a freed one)' % unc)
-        rep.check('B3', 'LookupBase.' + meth, ok, detail, construct='local-cache',
-                  node=f)
+        probs = []
+        n = 0
+        for ps in _N(_S(f)):
+            calls = [i for i, e in enumerate(ps.events) if e.kind == 'call' and
+                     _sem.nt(e.r.func) == 'self.%s' % unc]
+            if not calls:
+                continue
+            iu = calls[0]
+            res = _sem.nt(ps.events[iu].r)
+            sts = [(i, e) for i, e in enumerate(ps.events) if e.kind == 'store'
+                   and isinstance(e.r, ast.Subscript) and _sem.nt(e.val) == res]
+            if not sts:
+                probs.append('the computed result is not stored')
+                continue
+            n += 1
+            for i, e in sts:
+                cont = _sem.nt(e.r.value)
+                # the container must have been obtained before the call, and
+                # nothing re-obtains it afterwards
+                before = [j for j, x in enumerate(ps.events[:iu])
+                          if (x.kind == 'call' and _sem.nt(x.r) == cont)
+                          or (x.kind == 'store' and _sem.nt(x.val) == cont)]
+                after = [j for j, x in enumerate(ps.events) if j > iu and j < i and
+                         x.kind == 'call' and (
+                             _sem.nt(x.r) == cont or '_getcache' in _sem.nt(x.r.func)
+                             or _sem.nt(x.r).startswith(('self._mcache.', 'self._scache.',
+                                                         'self._cache.')))]
+                if not before:
+                    probs.append('the result is stored through `%s`, which was not '
+                                 'obtained before the uncached call' % cont[:60])
+                if after:
+                    probs.append('the cache is read again after the uncached call '
+                                 '(`%s`): a fresh, or the cleared, dictionary may be '
+                                 'written' % _sem.nt(ps.events[after[0]].r)[:60])
+        if not n:
+            probs.append('uncached call / result store not found')
+        rep.check('B3', 'LookupBase.' + meth, not probs,
+                  'the dictionary written after self.%s() is the one fetched before the '
+                  'call (a detached dict is written, never a freed or a fresh one)' % unc
+                  if not probs else {'problems': sorted(set(probs))[:3]},
+                  construct='local-cache', node=f)
     ch = find_def(mod, 'LookupBase.changed')
-    ok = all(find_all(ch, 'self.%s.clear()' % c) or
-             find_all(ch, 'self.%s = {}' % c, 'exec')
+    ok = all(_sem.paths_have(ch, ['self.%s.clear()' % c, 'self.%s = {}' % c])[0]
              for c in ('_cache', '_mcache', '_scache'))
     rep.check('B3', 'LookupBase.changed', ok,
               'the outer dictionaries are emptied in place (or rebound): '
